@@ -9,7 +9,7 @@ from mutation_campaign import Worker, sh, GOENV, VERIF, ALL
 def main():
     workers = int(sys.argv[1])
     outp = sys.argv[2] if len(sys.argv) > 2 else "/tmp/cross_matrix.json"
-    patches = sorted(glob.glob(os.path.join(VERIF, "seeded", "C*", "patch.diff")) + glob.glob(os.path.join(VERIF, "seeded2", "C*", "patch.diff")))
+    patches = sorted(glob.glob(os.path.join(VERIF, "seeded", "C*", "patch.diff")) + glob.glob(os.path.join(VERIF, "seeded2", "C*", "patch.diff")) + glob.glob(os.path.join(VERIF, "seeded3", "C*", "patch.diff")))
     root = tempfile.mkdtemp(prefix="crossm-")
     ws = [Worker(k, root) for k in range(workers)]
     free = queue.Queue()
